@@ -22,6 +22,12 @@ def M(id_, file, old, new, props):
 
 
 MUTANTS = [
+    M('mvee-inverse-not-rescaled', B, "    A_inv *= scale\n", "", 'C07'),
+    M('enlargement-shrinks', B, "        A_inv *= enlarge_per_dim**2.0", "        A_inv /= enlarge_per_dim**2.0", 'C07'),
+    M('mvee-scaled-to-mean-distance', B, "    scale = np.amax(np.einsum('...i,ij,...j', points - c, A, points - c))",
+      "    scale = np.mean(np.einsum('...i,ij,...j', points - c, A, points - c))", 'C07'),
+    M('cholesky-of-the-wrong-matrix', B, "        bound.B = np.linalg.cholesky(A_inv)",
+      "        bound.B = np.linalg.cholesky(bound.A)", 'C07'),
     M('resume-probes-blobs-but-does-not-read-them', S,
       "                        self.blobs.append(\n                            np.array(group['blobs_{}'.format(shell)]))",
       "                        pass", 'C05 C03'),
